@@ -8,6 +8,9 @@ Three parts (DESIGN.md, section C08):
     record by class name, done in the executor with the public layout of Cello.h only.
   * generated run-time types new(Type, name, size, instances...) with 0..256 instances and generated
     lookup sequences; oracle: the instance list the harness itself passed in (model in this file).
+    A case may re-declare the SAME type object in place (construct_with(T, name, size, new instances...))
+    between lookup sequences, i.e. with warm caches; later lookups are checked against the new list, and
+    no function of an earlier declaration may be reached.
   * the same lookups from 2..16 Cello Threads released together against a cold run-time type and
     cold built-in types.
 Every case runs in a freshly forked child of an executor that never calls into Cello itself, so the
@@ -29,7 +32,9 @@ RULE = ("static part (exhaustive, enumerated): case = (built-in type object, ord
         "cold/others-first make every single lookup the first Cello call of a forked process (others-first: after "
         "looking up the 29 other classes). generated part: case = run-time type (name, size, 0..256 instances = "
         "generated subset of the 30 classes in generated order with generated NULL members, placed among made-up "
-        "filler classes) + generated sequence of lookups/calls/casts with repeats, or the same with 2..16 threads. "
+        "filler classes) + generated sequence of lookups/calls/casts with repeats, optionally interleaved with 1..2 in-place "
+        "re-declarations of the same type object (classes dropped / replaced by new instance objects / reordered / added) "
+        "followed by lookups biased to the classes that changed, or (without re-declaration) the same with 2..16 threads. "
         "non-trivial = static case whose 18 cached classes are looked up for the first time in the process "
         "(cold, others-first), or run-time type with >= 20 instances, or a thread case (concurrent cold lookup). "
         "distinct = distinct case JSON.")
@@ -142,7 +147,11 @@ def _class_target(draw, t, allow_static_as_class=True):
     nm = dict(NMEM)
     nm.update({f[0]: f[1] for f in t["fdefs"]})
     declared = {c for c, _ in decl}
-    which = draw(st.integers(0, 9))
+    prev = t.get("prev") or []
+    which = draw(st.integers(0, 13 if prev else 9))
+    if which >= 10:                                     # class declared before the last re-declaration
+        c = draw(st.sampled_from(prev))
+        return c, nm.get(c, 1)
     if which <= 4 and decl:
         idx = draw(st.one_of(st.sampled_from([0, len(decl) - 1]), st.integers(0, len(decl) - 1)))
         c = decl[idx][0]
@@ -188,6 +197,51 @@ def _op(draw, t, threads):
     return ["tsize"]
 
 
+def _redeclare(draw, t):
+    """New instance list for the same type object: built-in classes are kept / given a new mask / dropped (dropping
+    biased to the cached classes), some new ones are added, a slice of the other instances is kept, order changes."""
+    cur = t["inst"]
+    bi = [x for x in cur if x[0] in NMEM]
+    oth = [x for x in cur if x[0] not in NMEM]
+    mode = draw(st.sampled_from(["edit", "edit", "edit", "empty", "same", "reverse"]))
+    if mode == "empty":
+        new = []
+    elif mode == "same":                                 # same classes, same masks, new instance objects
+        new = [list(x) for x in cur]
+    elif mode == "reverse":
+        new = [list(x) for x in reversed(cur)]
+    else:
+        nb = []
+        for c, mask in bi:
+            full = (1 << NMEM[c]) - 1
+            act = draw(st.sampled_from(["keep", "mask", "drop", "drop"] if c in CACHED else ["keep", "mask", "drop"]))
+            if act == "keep":
+                nb.append([c, mask])
+            elif act == "mask":
+                nb.append([c, draw(st.integers(0, full))])
+        have = {c for c, _ in bi}
+        for c in draw(st.lists(st.sampled_from(CN), unique=True, max_size=5)):
+            if c not in have:
+                nb.append([c, draw(st.sampled_from([(1 << NMEM[c]) - 1, 1, 0]))])
+        if draw(st.booleans()):
+            nb.reverse()
+        lo = draw(st.integers(0, len(oth)))
+        hi = draw(st.integers(lo, len(oth)))
+        keep = [list(x) for x in oth[lo:hi]]
+        used = {x[0] for x in keep}
+        for f in t["fdefs"]:                             # made-up classes that were not declared so far
+            if f[0] not in used and f[0] not in {x[0] for x in oth} and draw(st.integers(0, 3)) == 0:
+                keep.append([f[0], (1 << f[1]) - 1])
+        new = keep
+        for b in nb:
+            pos = draw(st.sampled_from([0, 10**6, 10**6, len(new) // 2]))
+            new.insert(min(pos, len(new)), b)
+        new = new[:256]
+    name = t["name"] if draw(st.integers(0, 3)) else draw(st.sampled_from(RT_NAMES))
+    size = t["size"] if draw(st.booleans()) else draw(st.integers(0, 512))
+    return ["redeclare", name, size, new]
+
+
 @st.composite
 def _rt_case(draw, threads=False):
     t = draw(_rt_type())
@@ -195,6 +249,17 @@ def _rt_case(draw, threads=False):
     ops = [_op(draw, t, threads) for _ in range(nops)]
     for i in draw(st.lists(st.integers(0, nops - 1), max_size=10)):      # repeats of earlier lookups
         ops.append(ops[i])
+    if not threads:
+        cur = dict(t)
+        for _ in range(draw(st.sampled_from([0, 0, 0, 1, 1, 2]))):
+            # make sure some declared classes are warm before the declaration changes
+            warm = [x[0] for x in cur["inst"] if x[0] in CACHED][:draw(st.integers(0, 18))]
+            ops += [["q", draw(st.sampled_from("ITMN")), c, 0] for c in warm]
+            rd = _redeclare(draw, cur)
+            ops.append(rd)
+            prev = sorted(set((cur.get("prev") or []) + [x[0] for x in cur["inst"]]))
+            cur = {"name": rd[1], "size": rd[2], "fdefs": t["fdefs"], "inst": rd[3], "prev": prev}
+            ops += [_op(draw, cur, False) for _ in range(draw(st.integers(1, 30)))]
     case = {"kind": "threads" if threads else "rt"}
     case.update(t)
     case["ops"] = ops
@@ -213,6 +278,8 @@ def strategy(tier):
 
 def _decl(case):
     d = {}
+    if len(case["inst"]) > 256:
+        raise HarnessBug("more than 256 instances generated")
     for idx, (c, mask) in enumerate(case["inst"]):
         if c in d:
             raise HarnessBug("class %s declared twice" % c)
@@ -220,8 +287,10 @@ def _decl(case):
     return d
 
 
-def _expect(case, decl, op):
-    """expected answer token, or a callable(token) -> expected token for oracle-relative answers"""
+def _expect(state, decl, op):
+    """expected answer token, or a callable(token) -> expected token for oracle-relative answers.
+    state = current declaration {"name", "size", "inst"} of the run-time type"""
+    case = state
     kind = op[0]
     if kind == "q":
         _, e, c, m = op
@@ -274,6 +343,8 @@ def _expect(case, decl, op):
 
 
 def _describe(case, op):
+    if op[0] == "redeclare":
+        return "construct_with(<same type object>, %s, %d, <%d instances>)" % (op[1], op[2], len(op[3]))
     if op[0] == "q":
         return "%s(<run-time type %s, %d instances>, %s, member %d)" % (ENTRY_NAME[op[1]], case["name"], len(case["inst"]), op[2], op[3])
     if op[0] == "sq":
@@ -295,7 +366,12 @@ def encode(case):
     if case["kind"] == "rt":
         lines.append("mk")
         for op in case["ops"]:
-            lines.append(" ".join(str(x) for x in op))
+            if op[0] == "redeclare":
+                for c, mask in op[3]:
+                    lines.append("ri %s %x" % (c, mask))
+                lines.append("redeclare %s %d" % (op[1], op[2]))
+            else:
+                lines.append(" ".join(str(x) for x in op))
     else:
         for op in case["ops"]:
             lines.append("tq " + " ".join(str(x) for x in op))
@@ -325,15 +401,18 @@ def _died(ex, obs):
 def _run_rt(ctx, case):
     ex = ctx.executor("ex_type")
     decl = _decl(case)
-    if len(case["inst"]) > 256:
-        raise HarnessBug("more than 256 instances generated")
     lines, nsetup = encode(case)
     obs = ex.run("\n".join(lines))
     _infra(ex, obs)
     n = len(case["inst"])
     thr = case["kind"] == "threads"
     ev = [case["kind"], "inst:%s" % ("0" if n == 0 else "1-19" if n < 20 else "20-199" if n < 200 else "200-256")]
-    nt = thr or n >= 20
+    nre = sum(1 for op in case["ops"] if op[0] == "redeclare")
+    if nre:
+        if thr:
+            raise HarnessBug("redeclare in a thread case")
+        ev.append("redeclare:%d" % nre)
+    nt = thr or n >= 20 or any(op[0] == "redeclare" and len(op[3]) >= 20 for op in case["ops"])
     d = _died(ex, obs)
     if d:
         return Result("child executing the case died: %s (after %d answered ops)" % (d, len([o for o in obs if not o.startswith("died")])), nt, ev, obs)
@@ -342,16 +421,31 @@ def _run_rt(ctx, case):
     for i in range(nsetup):
         if obs[i] != "ok":
             return Result("setup op failed: %s -> %s" % (lines[i], obs[i]), nt, ev, obs)
-    exp = [_expect(case, decl, op) for op in case["ops"]]
     if not thr:
         if obs[nsetup] != "ok":
             return Result("new(Type, name, size, <%d instances>) -> %s" % (n, obs[nsetup]), nt, ev, obs)
+        state = {"name": case["name"], "size": case["size"], "inst": case["inst"]}
+        pos = nsetup + 1
         for j, op in enumerate(case["ops"]):
-            got = obs[nsetup + 1 + j]
-            want = exp[j](got) if callable(exp[j]) else exp[j]
+            if op[0] == "redeclare":
+                for k in range(len(op[3]) + 1):
+                    if obs[pos + k] != "ok":
+                        return Result("op %d: %s -> %s" % (j, _describe(state, op), obs[pos + k]), nt, ev, obs)
+                pos += len(op[3]) + 1
+                state = {"name": op[1], "size": op[2], "inst": op[3], "redeclared": state.get("redeclared", 0) + 1}
+                decl = _decl(state)
+                continue
+            got = obs[pos]
+            pos += 1
+            want = _expect(state, decl, op)
+            if callable(want):
+                want = want(got)
             if got != want:
-                return Result("lookup %d: %s answered %s, the type declares %s" % (j, _describe(case, op), got, want), nt, ev, obs)
+                hist = (" (declaration %d of the same type object; old = instance of an earlier declaration, STALE = "
+                        "call reached a function of an earlier declaration)" % (state["redeclared"] + 1)) if state.get("redeclared") else ""
+                return Result("lookup %d: %s answered %s, the type declares %s%s" % (j, _describe(state, op), got, want, hist), nt, ev, obs)
         return Result(None, nt, ev, obs)
+    exp = [_expect(case, decl, op) for op in case["ops"]]
     for i in range(nsetup, len(lines) - 1):
         if obs[i] != "ok":
             return Result("setup op failed: %s -> %s" % (lines[i], obs[i]), nt, ev, obs)
@@ -458,8 +552,10 @@ def run_case(ctx, case):
 def SAMPLE(case):
     if case.get("kind") == "static":
         return case
+    short = [op if op[0] != "redeclare" else op[:3] + ["<%d instances>" % len(op[3])] + op[3][:4] for op in case["ops"]]
     s = {"kind": case["kind"], "name": case["name"], "size": case["size"], "instances": len(case["inst"]),
-         "inst_head": case["inst"][:5], "inst_tail": case["inst"][-2:], "nops": len(case["ops"]), "ops_head": case["ops"][:8]}
+         "inst_head": case["inst"][:5], "inst_tail": case["inst"][-2:], "nops": len(case["ops"]), "ops_head": short[:8],
+         "redeclare": [x for x in short if x[0] == "redeclare"][:2]}
     if case["kind"] == "threads":
         s["n"] = case["n"]
         s["rot"] = case["rot"]
@@ -508,6 +604,23 @@ def _boundary_cases():
         out.append({"kind": "rt", "name": "Full", "size": 8, "fdefs": fd, "inst": inst, "ops": probes + probes[::-1] + tail})
         tops = [p for p in probes if p[1] in "ITMN"][::3] + [["sq", "I", t, c, 0] for t in ("Int", "Array", "Table") for c in CACHED]
         out.append({"kind": "threads", "name": "Full", "size": 8, "fdefs": fd, "inst": inst, "ops": tops[:200], "n": 16, "rot": 5})
+    # in-place re-declaration of the same type object with warm caches: every class declared and looked up through
+    # every entry point, then re-declared as (nothing | same classes, new instance objects | reversed, every other
+    # class dropped, remaining ones with fewer members | only uncached classes | back to all), probed again each time
+    full = [[c, (1 << NMEM[c]) - 1] for c in CN]
+    half = [[c, ((1 << NMEM[c]) - 1) & 0x5b] for c in reversed(CN[::2])]
+    unc = [[c, (1 << NMEM[c]) - 1] for c in CN if c not in CACHED]
+    apis = [["api", c, m] for c in API_CLASSES for m in API[c]]
+    for fill in (0, 200):
+        fd, finst = [], []
+        for i in range(fill):
+            nme, nm, mask = _filler(i, 5)
+            fd.append([nme, nm, "h"])
+            finst.append([nme, mask])
+        ops = probes + apis
+        for k, new in enumerate(([], full, half, unc + finst[:50], finst + full, [])):
+            ops = ops + [["redeclare", "Re" if k % 2 else "Full", 8 + k, new]] + probes + apis + tail
+        out.append({"kind": "rt", "name": "Full", "size": 8, "fdefs": fd, "inst": full + finst, "ops": ops})
     out.append({"kind": "threads", "name": "Empty", "size": 0, "fdefs": [], "inst": [],
                 "ops": [["q", "I", c, 0] for c in CN] + [["q", "M", c, 0] for c in CN], "n": 16, "rot": 3})
     return out
